@@ -14,6 +14,7 @@
 // with that goroutine.  Everything handed to the recording transmit.MockTransmission is reported.
 //
 // case header: workers=<1..4> cap=<kept records per worker> dry=<0|1> max=<MaxExpiredTraces> u=<trace universe>
+//              tt=<TraceTimeout ms> sd=<SendDelay ms>   (independent: tt < sd, tt = sd and tt >> sd all occur)
 // ops:
 //   span <t> <root> <client rate> <bytes>    ext owner, filt        obs  buf n=<k> | late <sid>:<rate>:<marker> | dropped
 //   tick <t>        tick the owner of t at t's deadline               obs  w=<w> took=<…> left=<ids>   ext took, dec
@@ -54,8 +55,8 @@ import (
 )
 
 const (
-	traceTimeout = 10 * time.Second
-	sendDelay    = 2 * time.Second
+	defTraceTimeoutMs = 10000 // used when the case header does not give tt= / sd=
+	defSendDelayMs    = 2000
 	sentinelSid  = int64(-1)
 	nEnvs        = 3
 	stuck        = 30 * time.Second
@@ -122,6 +123,15 @@ func (comp) Gen(r *kit.Rng, maxLen int, tier string) kit.Case {
 	max := []int{0, 0, 0, 1, 2}[r.Intn(5)]
 	u := 2 + r.Intn(7)
 	n := 8 + r.Intn(maxLen)
+	// TraceTimeout and SendDelay are validated separately (>= 1 s, >= 100 ms) and nothing relates them:
+	// the usual tt >> sd, but also tt = sd and tt < sd, where a root's "send soon" deadline is not
+	// earlier than the trace's own timeout and processSpan's re-prioritisation guard stays false
+	timing := [][2]int{{10000, 2000}, {10000, 2000}, {10000, 2000}, {60000, 100}, {1000, 1000}, {2000, 2000}, {1000, 3000}, {1000, 60000}}[r.Intn(8)]
+	tt, sd := timing[0], timing[1]
+	rootPct := 25
+	if tt <= sd { // root-first and single-span traces are frequent here
+		rootPct = 60
+	}
 	reloads := r.Chance(45) // cases without any reload keep DryRun constant (C01 / C05 conclusions apply)
 	resizes := r.Chance(35) // reloads that change the kept-decision capacity
 	stressy := r.Chance(30) // stress relief switches on and off
@@ -129,7 +139,7 @@ func (comp) Gen(r *kit.Rng, maxLen int, tier string) kit.Case {
 	last := -1
 	span := func(t int) {
 		root := 0
-		if r.Chance(25) {
+		if r.Chance(rootPct) {
 			root = 1
 		}
 		client := []int{0, 0, 1, 1, 2, 3, 10}[r.Intn(7)]
@@ -230,7 +240,7 @@ func (comp) Gen(r *kit.Rng, maxLen int, tier string) kit.Case {
 		}
 	}
 	ops = append(ops, "flush", "check")
-	return kit.Case{Header: fmt.Sprintf("workers=%d cap=%d dry=%d max=%d u=%d", workers, cap, dry, max, u), Ops: ops}
+	return kit.Case{Header: fmt.Sprintf("workers=%d cap=%d dry=%d max=%d u=%d tt=%d sd=%d", workers, cap, dry, max, u, tt, sd), Ops: ops}
 }
 
 // ---------------------------------------------------------------------------- rig
@@ -256,6 +266,8 @@ type runner struct {
 	rel   []chan struct{}
 	sid   int64
 	sr    *ctlStress
+	tt    time.Duration // TraceTimeout
+	sd    time.Duration // SendDelay
 }
 
 func (comp) NewCase(h []string) kit.Runner {
@@ -273,6 +285,8 @@ func (comp) NewCase(h []string) kit.Runner {
 	if capv < 1 {
 		capv = 1
 	}
+	traceTimeout := time.Duration(atoi("tt", defTraceTimeoutMs)) * time.Millisecond
+	sendDelay := time.Duration(atoi("sd", defSendDelayMs)) * time.Millisecond
 	conf := &config.MockConfig{
 		GetTracesConfigVal: config.TracesConfig{
 			SendTicker:       config.Duration(1000000 * time.Hour), // the harness owns the tick schedule
@@ -330,7 +344,7 @@ func (comp) NewCase(h []string) kit.Runner {
 	if err := c.Start(); err != nil {
 		panic(err)
 	}
-	r := &runner{conf: conf, clock: clock, tx: tx, ptx: ptx, sf: sf, ps: ps, coll: c, n: collect.VerifCollectorNumWorkers(c), sr: sr}
+	r := &runner{conf: conf, clock: clock, tx: tx, ptx: ptx, sf: sf, ps: ps, coll: c, n: collect.VerifCollectorNumWorkers(c), sr: sr, tt: traceTimeout, sd: sendDelay}
 	r.rel = make([]chan struct{}, r.n)
 	for w := 0; w < r.n; w++ {
 		r.park(w)
@@ -655,7 +669,11 @@ func (r *runner) Do(op []string) (string, bool) {
 			return "bad-op", true
 		}
 		w %= r.n
-		r.clock.Advance(traceTimeout + time.Second)
+		adv := r.tt // past every deadline processSpan can have set: now+TraceTimeout or now+SendDelay
+		if r.sd > adv {
+			adv = r.sd
+		}
+		r.clock.Advance(adv + time.Second)
 		return r.tick(w)
 	case "eject":
 		w, bytes := arg(1), arg(2)
